@@ -7,6 +7,8 @@ import (
 	"sort"
 	"strconv"
 	"strings"
+	"sync"
+	"time"
 
 	"github.com/openconfig/gnmi/cache"
 	"github.com/openconfig/gnmi/coalesce"
@@ -39,9 +41,20 @@ type maComp struct {
 	subs     []func()            // remove closures returned by addSubscription, in order of the sub ops
 }
 
-type maCounter struct{ n int }
+type maCounter struct {
+	n    int
+	name string
+}
 
-func (c *maCounter) Update(interface{}) { c.n++ }
+// maHook, when set, runs at the start of every counter client's Update (op `updrm`).
+var maHook func(name string)
+
+func (c *maCounter) Update(interface{}) {
+	if h := maHook; h != nil {
+		h(c.name)
+	}
+	c.n++
+}
 
 func init() { components["ma"] = &maComp{} }
 
@@ -68,7 +81,7 @@ func (c *maComp) client(name string) match.Client {
 	if cc, ok := c.cnt[name]; ok {
 		return cc
 	}
-	cc := &maCounter{}
+	cc := &maCounter{name: name}
 	c.cnt[name], c.names[cc] = cc, name
 	c.order = append(c.order, name)
 	return cc
@@ -202,6 +215,56 @@ func (c *maComp) Run(args []string) string {
 	case args[0] == "upd" && len(args) == 2:
 		c.m.Update(ctree.DetachedLeaf(1), decPath(args[1]))
 		return c.counts()
+	case args[0] == "updrm" && len(args) == 4:
+		// an update is in flight (the first matched counter client is slow: its callback is held)
+		// while the registration (client, query) is removed.  The removal must not return before
+		// the notification has been offered to everybody it matched: a subscriber is never offered
+		// a notification after its remove function returned.  Sequentially this is `upd` then `rm`.
+		cl := decStr(args[2])
+		hold, entered := make(chan struct{}), make(chan struct{})
+		var mu sync.Mutex
+		seen, removed, late := 0, false, false
+		maHook = func(name string) {
+			mu.Lock()
+			seen++
+			first := seen == 1
+			if removed && name == cl {
+				late = true
+			}
+			mu.Unlock()
+			if first {
+				close(entered)
+				<-hold
+			}
+		}
+		updDone, rmDone := make(chan struct{}), make(chan struct{})
+		go func() { c.m.Update(ctree.DetachedLeaf(1), decPath(args[1])); close(updDone) }()
+		select {
+		case <-entered:
+		case <-updDone:
+		}
+		go func() {
+			for _, rm := range c.closures[args[2]+" "+args[3]] {
+				rm()
+			}
+			mu.Lock()
+			removed = true
+			mu.Unlock()
+			close(rmDone)
+		}()
+		select {
+		case <-rmDone:
+		case <-time.After(3 * time.Millisecond):
+		}
+		close(hold)
+		<-updDone
+		<-rmDone
+		maHook = nil
+		mon := "mon=ok"
+		if late {
+			mon = "mon=FAIL:offered-after-remove-returned"
+		}
+		return c.counts() + " " + mon
 	case args[0] == "once":
 		updated := map[match.Client]struct{}{}
 		v := ctree.DetachedLeaf(1)
@@ -375,8 +438,28 @@ func (c *maComp) Gen(r *rand.Rand, tier string) []string {
 			}
 			a := added[r.Intn(len(added))]
 			seq = append(seq, "rm "+a.c+" "+encPath(a.q))
-		case x < 52:
+		case x < 49:
 			seq = append(seq, "upd "+encPath(pick()))
+		case x < 52:
+			// an update in flight while one of the registrations it may match is removed
+			if len(added) == 0 || r.Intn(3) != 0 {
+				seq = append(seq, "upd "+encPath(pick()))
+				continue
+			}
+			a := added[r.Intn(len(added))]
+			if !strings.HasPrefix(a.c, "c") {
+				continue
+			}
+			p := cloneStrs(a.q)
+			for j := range p {
+				if p[j] == "*" {
+					p[j] = maElem(r)
+				}
+			}
+			if r.Intn(3) == 0 {
+				p = append(p, maRandPath(r, 2)...)
+			}
+			seq = append(seq, "updrm "+encPath(p)+" "+a.c+" "+encPath(a.q))
 		case x < 59:
 			l := "once"
 			for k := 1 + r.Intn(3); k > 0; k-- {
